@@ -545,6 +545,10 @@ func (x *EvalCtx) evalCall(e *Expr) TV {
 			efail("exists() needs `ghost fsExists pathset`")
 		}
 		return TV{Select(c.get(x.st, cell), a.T, SBool), tyBool}
+	case "stdinData":
+		// the bytes standing on stdin (uninterpreted constant)
+		c.declareFun("stdinData", nil, SInt)
+		return TV{Term{"stdinData", SInt}, tyString}
 	case "fileData":
 		// the bytes of the named file (uninterpreted; the file system is not modelled beyond presence)
 		a := x.eval(e.Args[0])
